@@ -19,7 +19,7 @@ from vmon.libutil import monitored
 
 LEVEL = "exploration"
 SHARDS = {"quick": 16, "thorough": 16}
-MUST = ["accessor.cursor_moved_first", "accessor.order0", "accessor.order1", "accessor.order2", "create.contract_evaluations", "accessor.checks", "reframe.checks", "reframe.socket", "reframe.file-chunked", "reframe.file-short-reads", "reframe.bytes-prefixed", "reframe.twice", "reframe.beyond_20MB", "reframe.train", "reframe.train/bytesio-written", "reframe.train/file-read-size-on-packet-border", "reframe.train/socket-two-packets-per-delivery", "reframe.train/cut-in-last-packet", "reframe.train/two-generators-requested-up-front", "reframe.train/equal-prefixed-records", "reframe.train/socket-two-packets-per-delivery/show_progress", "reject.checks", "word1.values", "word2.values"]
+MUST = ["accessor.cursor_moved_first", "accessor.order0", "accessor.order1", "accessor.order2", "create.contract_evaluations", "accessor.checks", "reframe.checks", "reframe.socket", "reframe.file-chunked", "reframe.file-short-reads", "reframe.bytes-prefixed", "reframe.twice", "reframe.beyond_20MB", "reframe.train", "reframe.train/bytesio-written", "reframe.train/file-read-size-on-packet-border", "reframe.train/socket-two-packets-per-delivery", "reframe.train/cut-in-last-packet", "reframe.train/datagram-socket", "reframe.train/two-generators-requested-up-front", "reframe.train/equal-prefixed-records", "reframe.train/socket-two-packets-per-delivery/show_progress", "reject.checks", "word1.values", "word2.values"]
 RULE = ("create_ccsds_packet is called on enumerated field values; a postcondition compares the bytes with the "
         "model's bit-string layout (3+1+1+11+2+14+16 bits, length field = len(data)-1) and the harness compares "
         "every accessor, re-frames the packet through ccsds_generator (bytes, BytesIO, and in rotation: chunked file reads, short reads, a "
@@ -163,9 +163,35 @@ def check_packet(ctx, vals, data, reframe=True):
             import contextlib
             train = [prev, raw, prev]
             tb = b"".join(train)
-            mode = n % 8
+            mode = n % 9
             passes = 1
             kw = {}
+            if mode == 8 and len(tb) > 4000:
+                return p        # a datagram longer than the framer's default 4096-byte recv() would be cut by the socket layer itself
+            if mode == 8:
+                # a message-oriented socket (UNIX datagram pair, as UDP telemetry arrives): one datagram per constructed packet,
+                # or the three of them in one datagram; default read size
+                import socket as _socket
+                a_, b_ = _socket.socketpair(_socket.AF_UNIX, _socket.SOCK_DGRAM)
+                b_.settimeout(30)
+                try:
+                    if (n // 9) % 2:
+                        a_.send(tb)
+                    else:
+                        for pk_ in train:
+                            a_.send(pk_)
+                    g = packets.ccsds_generator(b_)
+                    s = monitored(lambda: [bytes(x) for x in itertools.islice(g, 3)])
+                    g.close()
+                finally:
+                    a_.close()
+                    b_.close()
+                ctx.count("reframe.train")
+                ctx.count("reframe.train/datagram-socket")
+                if s.exc is not None or s.value != train:
+                    ctx.violation("reframe/train/datagram-socket", f"three constructed packets sent over a datagram socket re-framed as "
+                                  f"{[len(x) for x in (s.value or [])]} / exc {s.exc!r}", dict(wit, source="datagram socketpair"))
+                return p
             if mode in (6, 7):
                 import contextlib
                 with contextlib.redirect_stdout(io.StringIO()):
@@ -179,9 +205,9 @@ def check_packet(ctx, vals, data, reframe=True):
                         detail = f"{[len(o) for o in outs]} packets from the two generators"
                     else:
                         # N equal records (prefix + packet) from a source of known length: every count and prefix length
-                        N, k2 = 2 + (n // 8) % 7, (1, 4, 7, 8, len(raw))[(n // 56) % 5]
+                        N, k2 = 2 + (n // 9) % 7, (1, 4, 7, 8, len(raw))[(n // 63) % 5]
                         recs = (bytes([0xEE]) * k2 + raw) * N
-                        src = recs if (n // 8) % 2 else io.BytesIO(recs)
+                        src = recs if (n // 9) % 2 else io.BytesIO(recs)
                         got = [bytes(x) for x in itertools.islice(packets.ccsds_generator(src, skip_header_bytes=k2), N + 2)]
                         kind = "train/equal-prefixed-records"
                         good = got == [raw] * N
@@ -195,7 +221,7 @@ def check_packet(ctx, vals, data, reframe=True):
                 # the stream ends part-way through the last packet (its header complete): whatever the framer yields must still be a
                 # packet whose accessors agree with its own first six bytes - i.e. only the complete ones
                 cutlen = len(tb) - rr.randrange(1, max(2, len(prev) - 6))
-                src_kind = (n // 8) % 3
+                src_kind = (n // 9) % 3
                 out = []
                 with contextlib.redirect_stdout(io.StringIO()):
                     src = tb[:cutlen] if src_kind == 0 else io.BytesIO(tb[:cutlen]) if src_kind == 1 else \
@@ -223,10 +249,10 @@ def check_packet(ctx, vals, data, reframe=True):
                 kind, passes = "train/bytesio-written", 2     # ... and the same object is framed a second time
             elif mode == 1:
                 src = sources_mod.RecordingFile(tb, "full")
-                kind, kw = "train/file-read-size-on-packet-border", {"buffer_read_size_bytes": len(prev) if (n // 8) % 2 else len(prev) + len(raw)}
+                kind, kw = "train/file-read-size-on-packet-border", {"buffer_read_size_bytes": len(prev) if (n // 9) % 2 else len(prev) + len(raw)}
             elif mode == 2:
                 src = sources_mod.ScriptedSocket([prev + raw, prev], closed_by_peer=True)     # one delivery holds two whole packets
-                kind, kw = "train/socket-two-packets-per-delivery", {"show_progress": bool((n // 8) % 2)}
+                kind, kw = "train/socket-two-packets-per-delivery", {"show_progress": bool((n // 9) % 2)}
             elif mode == 3:
                 src, kind, kw = tb, "train/bytes", {"show_progress": True}
             else:
@@ -361,7 +387,8 @@ def run(ctx):
         made = [packets.create_ccsds_packet(bytes([i & 0xFF]) * 65536, apid=i % 2048, sequence_count=i, sequence_flags=i % 4,
                                             version_number=i % 8, type=i % 2, secondary_header_flag=(i // 2) % 2) for i in range(322)]
         stream = b"".join(bytes(m) for m in made)
-        for kind, src, kw in (("bytes", stream, {}), ("file-chunked", io_mod.BytesIO(stream), {"buffer_read_size_bytes": 1 << 20})):
+        for kind, src, kw in (("bytes", stream, {}), ("file-chunked", io_mod.BytesIO(stream), {"buffer_read_size_bytes": 1 << 20}),
+                              ("file-read-size-one-packet", io_mod.BytesIO(stream), {"buffer_read_size_bytes": 65542})):
             out = []
             s = monitored(lambda: [out.append((len(x), x.apid, x.sequence_count, x.data_length, bytes(x[6:8]))) for x in packets.ccsds_generator(src, **kw)])
             ctx.count("evaluations")
